@@ -15,6 +15,8 @@ Correspondence (this file): the real `Stream.latest()` node runs on the virtual 
                     element into the upstream of `latest` before it returns its future / None —
                     a feedback cycle; in model terms an `arrive` while the coroutine is already in
                     its `emitting` state, inside the very handle that performed the `resume`)
+    c  connect     (late-connect cases only: attach the consumer to the latest node now; before
+                    that the node has NO downstream and what it emits goes to nobody)
 executed from the loop's `after_handle` hook, so an arrival can be placed between any two
 handles — in particular between a `condition.notify` callback and the coroutine's resumption.
 The consumer is a sink whose `update` returns a Future the harness completes ('A' mode) or
@@ -47,6 +49,14 @@ class Falsy:
         return "Falsy(%d)" % self.i
 
 
+# Payload codes for `case["payloads"]` (arrival i uses payloads[i-1]; '-' or past the end = the
+# case's default kind).  The singletons are used at most once per case, so every arrival is still
+# recognised by IDENTITY — the oracle never looks at truthiness or equality of a payload.
+SPECIAL = {"N": lambda: None, "0": lambda: 0, "E": lambda: "", "F": lambda: False, "T": lambda: (),
+           "B": lambda: b"", "L": lambda: [], "D": lambda: {}}
+SINGLETONS = "N0EFTB"
+
+
 def _is_read_self(h):
     return getattr(h._callback, "__name__", "") == "_read_from_self"
 
@@ -59,6 +69,11 @@ class Exec:
         self.tokens = list(case.get("tokens", ""))
         self.modes = case.get("modes") or "A"
         self.payload_kind = case.get("payload", "idx")
+        self.payloads = case.get("payloads") or ""
+        self.late = bool(case.get("late"))      # the consumer is attached by the first 'c' (or when draining starts)
+        self.sink = None
+        self.attached_at = None                 # number of arrivals when the consumer was attached
+        self.emits = []                         # everything the node emitted (to the consumer or to nobody), for the model
         self.max_arrivals = case.get("max_arrivals")
         self.chooser = chooser          # exhaustive mode: called with the enabled token list
         self.executed = []              # tokens actually performed
@@ -101,18 +116,42 @@ class Exec:
             def update(self, x, who=None, metadata=None):
                 return ex.on_deliver(x, metadata)
 
+        self.SlowSink = SlowSink
         self.source = Stream(asynchronous=True)
         self.node = self.source.latest()
         self.cond = LogCondition()
         self.node._condition = self.cond      # `latest.condition` creates it lazily; cb has not run yet
-        self.sink = SlowSink(self.node)
+        real_emit = self.node._emit
+
+        def logged_emit(x, metadata=None):
+            # only used to SEE an emission that goes to nobody (no downstream attached yet): in model terms
+            # a delivery whose consumer is free again at once (resume; consumerDone)
+            if ex.sink is None:
+                ex.events.append(("void", ex.index_of(x)))
+                ex.emits.append(ex.index_of(x))
+                r = real_emit(x, metadata)
+                ex.events.append("syncdone")
+                return r
+            return real_emit(x, metadata)
+
+        self.node._emit = logged_emit
+        if not self.late:
+            self.attach()
         self.finished = loop.create_future()
 
-    def on_deliver(self, x, metadata):
+    def attach(self):
+        self.sink = self.SlowSink(self.node)
+        self.attached_at = len(self.arrivals)
+
+    def index_of(self, x):
         idx = 0
         for i, p in enumerate(self.arrivals, 1):
             if p is x:
                 idx = i
+        return idx
+
+    def on_deliver(self, x, metadata):
+        idx = self.index_of(x)
         self.events.append(("deliver", idx))
         # ---- model-free oracle, clause 1 (evaluated at the moment of delivery)
         if idx == 0:
@@ -129,6 +168,7 @@ class Exec:
             self.problem("latest-ref-released-in-flight",
                          "arrival %d handed downstream with reference count %d" % (idx, self.refs[idx - 1].count))
         self.deliveries.append(idx)
+        self.emits.append(idx)
         if len(self.deliveries) > 2 * len(self.arrivals) + 4:
             # a node that re-delivers without bound would spin inside one handle: stop it (the
             # duplicate has been recorded above; the exception ends the forwarding coroutine)
@@ -175,13 +215,12 @@ class Exec:
 
     def observe(self):
         nxt = self.node.next
-        if not nxt:
+        if isinstance(nxt, list) and len(nxt) == 0:
             slot = "-"
+        elif isinstance(nxt, list) and len(nxt) == 1:
+            slot = str(self.index_of(nxt[0]) or "?")
         else:
-            slot = "?"
-            for i, p in enumerate(self.arrivals, 1):
-                if p is nxt[0]:
-                    slot = str(i)
+            slot = "?"          # not the one-element-list slot the model describes
         waiters = sum(1 for w in self.cond._waiters if not w.done())
         if waiters:
             co = "W" if waiters == 1 else "W%d" % waiters
@@ -210,7 +249,7 @@ class Exec:
             else:
                 acts += "R"
         self.steps.append({"tok": tok, "acts": acts, "obs": self.observe(),
-                           "events": [e if isinstance(e, str) else "deliver%d" % e[1] for e in self.events]})
+                           "events": [e if isinstance(e, str) else "%s%d" % e for e in self.events]})
         self.events = []
         self.executed.append(tok)
         if self.real_quiescent():
@@ -221,13 +260,17 @@ class Exec:
         arrival must have been delivered."""
         if self.outstanding is not None:
             return
-        self.quiescent_points += 1
         n = len(self.arrivals)
-        if n and (not self.deliveries or self.deliveries[-1] != n):
-            self.problem("latest-lost-wakeup",
-                         "loop idle and consumer free after %d arrivals, but deliveries are %r: the newest "
-                         "element was not delivered and nothing is scheduled that would deliver it"
-                         % (n, self.deliveries))
+        if self.sink is not None:
+            self.quiescent_points += 1
+            # a consumer attached late: the claim is about the newest element received AFTER it was attached;
+            # no claim for elements that arrived while the node had no downstream at all
+            if n > self.attached_at and (not self.deliveries or self.deliveries[-1] != n):
+                self.problem("latest-lost-wakeup",
+                             "loop idle and consumer free after %d arrivals%s, but deliveries are %r: the newest "
+                             "element (%r) was not delivered and nothing is scheduled that would deliver it"
+                             % (n, " (consumer attached after the first %d)" % self.attached_at if self.attached_at else "",
+                                self.deliveries, self.arrivals[-1]))
         if CHECK_REFS and n:
             counts = [r.count for r in self.refs]
             if counts[-1] != 1 or any(counts[:-1]):
@@ -243,6 +286,8 @@ class Exec:
             en.append("h")
         if self.outstanding is not None:
             en.append("d")
+        if self.sink is None:
+            en.append("c")
         return en
 
     def next_token(self):
@@ -262,6 +307,8 @@ class Exec:
         self.draining = True
         if any(not h._cancelled for h in self.loop._ready):
             return "h"
+        if self.sink is None:
+            return "c"
         if self.outstanding is not None:
             return "d"
         return None
@@ -282,6 +329,11 @@ class Exec:
                     if any(not h._cancelled for h in self.loop._ready):
                         return          # the loop now runs exactly one handle, then calls us again
                     continue
+                if tok == "c":
+                    if self.sink is None:
+                        self.attach()
+                        self.record("c", "")
+                    continue
                 if tok == "r":
                     self.armed += 1
                     self.executed.append("r")
@@ -301,7 +353,11 @@ class Exec:
 
     def new_element(self):
         i = len(self.arrivals) + 1
-        p = Falsy(i) if self.payload_kind == "falsy" else ("v%d" % i if self.payload_kind == "str" else [i])
+        code = self.payloads[i - 1] if i <= len(self.payloads) else "-"
+        if code in SPECIAL:
+            p = SPECIAL[code]()
+        else:
+            p = Falsy(i) if self.payload_kind == "falsy" else ("v%d" % i if self.payload_kind == "str" else [i])
         ref = self.RefCounter()
         self.arrivals.append(p)
         self.refs.append(ref)
@@ -393,7 +449,7 @@ def gen_case(rng):
     period, arrivals exactly one loop turn apart, long idle stretches and fully synchronous
     consumers are all frequent."""
     style = rng.choice(["uniform", "uniform", "turn-apart", "busy-burst", "eager-loop", "slow-loop", "sync",
-                        "feedback", "feedback"])
+                        "feedback", "feedback", "late-connect", "late-connect"])
     n = rng.choice([3, 6, 10, 16, 25, 40])
     toks = []
     if style == "turn-apart":
@@ -411,6 +467,11 @@ def gen_case(rng):
             toks += ["a"] + ["h"] * rng.randint(1, 4)            # get one element into delivery
             toks += [rng.choice("aah") for _ in range(rng.randint(1, 6))]   # burst while busy
             toks += ["d"] + ["h"] * rng.randint(0, 4)
+    elif style == "late-connect":
+        # some arrivals while latest() has no downstream at all, then the consumer is attached, then more input
+        toks += rng.choices("ah", weights=(2, 3), k=rng.randint(1, 8))
+        toks.append("c")
+        toks += rng.choices("ahd", weights=(3, 4, 2), k=rng.randint(0, 12))
     elif style == "feedback":
         # the consumer feeds elements back into the upstream while it is being handed one (re-entrant
         # arrivals), alone (the chain ends with the newest element) or mixed with outside arrivals
@@ -428,8 +489,33 @@ def gen_case(rng):
         modes = "S"
     else:
         modes = rng.choice(["A", "A", "A", "AS", "SA", "AAS", "".join(rng.choice("AS") for _ in range(5))])
-    return {"tokens": "".join(toks), "modes": modes, "payload": rng.choice(["idx", "idx", "falsy", "str"]),
+    case = {"tokens": "".join(toks), "modes": modes, "payload": rng.choice(["idx", "idx", "falsy", "str"]),
             "style": style}
+    if style == "late-connect":
+        case["late"] = True
+    elif rng.random() < 0.12:
+        # late attachment inside any other style ('c' somewhere, or only when draining starts)
+        case["late"] = True
+        if rng.random() < 0.7:
+            k = rng.randint(0, len(toks))
+            case["tokens"] = "".join(toks[:k] + ["c"] + toks[k:])
+    if rng.random() < 0.4:
+        # None and other falsy payloads (each singleton at most once, so identity still identifies the arrival)
+        pool = list(SINGLETONS)
+        rng.shuffle(pool)
+        codes = []
+        for _ in range(rng.randint(1, 10)):
+            r = rng.random()
+            if r < 0.45 and pool:
+                codes.append(pool.pop())
+            elif r < 0.6:
+                codes.append(rng.choice("LD"))
+            else:
+                codes.append("-")
+        if rng.random() < 0.5 and "N" in pool:
+            codes[rng.randrange(len(codes))] = "N"      # make sure None itself is frequent
+        case["payloads"] = "".join(codes)
+    return case
 
 
 CORPUS = [
@@ -455,6 +541,18 @@ CORPUS = [
     {"tokens": "rrrah", "modes": "A", "payload": "idx", "style": "corpus:feedback-slow"},
     {"tokens": "hahrhahh", "modes": "AS", "payload": "falsy", "style": "corpus:feedback-then-outside-arrival"},
     {"tokens": "hrahhdhh", "modes": "A", "payload": "idx", "style": "corpus:feedback-last-element"},
+    # None / falsy payloads: while idle, as the newest element, arriving while the consumer is busy
+    {"tokens": "hahhh", "modes": "A", "payload": "idx", "payloads": "N", "style": "corpus:none-idle"},
+    {"tokens": "hahhahhdhh", "modes": "A", "payload": "idx", "payloads": "-N", "style": "corpus:none-while-busy"},
+    {"tokens": "hahhaahhdhh", "modes": "A", "payload": "idx", "payloads": "-0N", "style": "corpus:none-after-burst"},
+    {"tokens": "hahhdahhdahhdahhdahhd", "modes": "AS", "payload": "idx", "payloads": "0EFTB", "style": "corpus:falsy-singletons"},
+    {"tokens": "aaahh", "modes": "S", "payload": "idx", "payloads": "LDN", "style": "corpus:none-newest-sync"},
+    # consumer attached late: arrivals while latest() has no downstream, then connect, then more input
+    {"tokens": "hahhhcahhhahhh", "modes": "A", "payload": "idx", "late": True, "style": "corpus:late-connect"},
+    {"tokens": "ahhaahhhhcahdahd", "modes": "A", "payload": "idx", "late": True, "style": "corpus:late-connect-burst-before"},
+    {"tokens": "hacahh", "modes": "A", "payload": "idx", "late": True, "style": "corpus:late-connect-element-still-in-slot"},
+    {"tokens": "hahhh", "modes": "S", "payload": "idx", "late": True, "style": "corpus:connect-only-when-draining"},
+    {"tokens": "hahhcahhh", "modes": "S", "payload": "idx", "payloads": "0N", "late": True, "style": "corpus:late-connect-none"},
 ]
 
 
@@ -486,8 +584,8 @@ def compare(ex, ans):
         if norm_state(ms) != st["obs"]:
             return ("after step %d (%s, actions %r) the node is in state %s, the model in %s"
                     % (i, st["tok"], st["acts"], st["obs"], ms))
-    if ans["delivered"] != ex.deliveries:
-        return "deliveries %r, model %r" % (ex.deliveries, ans["delivered"])
+    if ans["delivered"] != ex.emits:
+        return "emissions %r (to the consumer: %r), model %r" % (ex.emits, ex.deliveries, ans["delivered"])
     if ans["arrived"] != len(ex.arrivals):
         return "arrivals %d, model %d" % (len(ex.arrivals), ans["arrived"])
     if not (ans["quiescent"] and ans["free"]):
@@ -519,6 +617,20 @@ class Batch:
             ctx.count("several-arrivals-in-busy-period")
         if ex.gap_arrivals:
             ctx.count("arrival-between-notify-and-resumption")
+        if ex.late:
+            ctx.count("consumer-attached-late")
+            if ex.attached_at and len(ex.arrivals) > ex.attached_at:
+                ctx.count("arrivals-before-and-after-late-attachment")
+            if len(ex.emits) > len(ex.deliveries):
+                ctx.count("element-emitted-to-nobody-before-attachment")
+        if ex.payloads:
+            codes = ex.payloads[:len(ex.arrivals)]
+            if "N" in codes:
+                ctx.count("payload-None")
+                if codes and codes[-1] == "N":
+                    ctx.count("payload-None-is-newest")
+            if any(c in codes for c in "0EFTBLD"):
+                ctx.count("payload-other-falsy")
         if ex.reentrant_arrivals:
             ctx.count("re-entrant-arrival-during-delivery")
             if ex.reentrant_arrivals and ex.steps and any("rearrive" in st["events"] and st["events"][-1] != "rearrive"
@@ -571,6 +683,11 @@ def run(ctx):
         "the event loop runs ready handles in FIFO order; the model allows ANY order of the queued notify callbacks and the "
         "coroutine's resumption, so every real schedule is a model schedule",
         "the consumer completes every awaitable it returns (otherwise 'the consumer becomes free' never happens)",
+        "while latest() has no downstream an emission goes to nobody: in the model that is `resume` immediately followed by "
+        "`consumerDone` (a delivery whose consumer is free at once); the model's delivery log is compared with ALL emissions of the "
+        "node, the oracle looks only at what the consumer received and claims 'newest delivered' only for elements that arrived "
+        "after the consumer was attached (an element received at or after attachment is necessarily emitted after it, hence to the consumer)",
+        "an emission to nobody is observed through a logging wrapper installed as the instance attribute latest._emit",
         "a re-entrant arrival (the consumer emits into the upstream of latest during the call that hands it an element) is "
         "the model action `arrive` taken in state `emitting`, inside the handle that performed `resume`; arrivals from other "
         "threads are excluded (update runs on the loop thread)",
@@ -583,7 +700,7 @@ def run(ctx):
     n_random = 10000 if ctx.thorough() else 300
     for _ in range(n_random):
         batch.add(execute(gen_case(ctx.rng)), "random")
-    exh = [("A", 4), ("AS", 4), ("SA", 4), ("S", 4)]
+    exh = [("A", 4), ("AS", 4), ("SA", 3), ("S", 4)]
     if ctx.thorough():
         exh = [("A", 5), ("AS", 5), ("SA", 5), ("S", 6), ("AAS", 4)]
     cap = 1000000 if ctx.thorough() else 60000     # > 10x the size of the largest tree of a conforming node
@@ -609,6 +726,34 @@ def run(ctx):
                     break
             if broken:
                 break
+    # ... with None / falsy singleton payloads in every position, and with the consumer attached late
+    extra = [({"modes": "A", "payloads": pl, "reentry": True}, 3) for pl in ("N0E", "0NE", "0EN")]
+    extra += [({"modes": "S", "payloads": pl, "reentry": True}, 4) for pl in ("NTB0", "TNB0", "TB0N")]
+    extra += [({"modes": "A", "late": True}, 3), ({"modes": "S", "late": True}, 3), ({"modes": "AS", "late": True}, 3)]
+    if ctx.thorough():
+        extra += [({"modes": "S", "late": True}, 4)]
+        extra += [({"modes": "A", "payloads": pl, "reentry": True}, 4) for pl in ("N0EF", "0NEF", "0ENF", "0EFN")]
+        extra += [({"modes": "A", "late": True, "reentry": True}, 4), ({"modes": "SA", "late": True, "payloads": "0N"}, 4)]
+    for base, nmax in extra:
+        broken = False
+        tag = "exhaustive:%s%s%s" % (base["modes"], ":late" if base.get("late") else "",
+                                     ":" + base["payloads"] if base.get("payloads") else "")
+        for n in range(1, nmax + 1):
+            k = 0
+            for ex in enumerate_paths(dict(base, max_arrivals=n, payload="idx", style="exhaustive")):
+                batch.add(ex, "exhaustive")
+                ctx.count("%s:%d" % (tag, n))
+                k += 1
+                if ex.problems:
+                    broken = True
+                    break
+                if k >= cap:
+                    ctx.unchecked.append("exhaustive enumeration %s, %d arrivals exceeded %d interleavings: not exhaustive"
+                                         % (tag, n, cap))
+                    broken = True
+                    break
+            if broken:
+                break
     batch.judge()
     ctx.coverage["rule"] = (
         "corpus (incl. the two Lean witness schedules) + seeded schedules over {arrive, run one ready handle, complete consumer, "
@@ -616,7 +761,10 @@ def run(ctx):
         "in 8 styles (uniform, arrivals one loop turn apart, bursts during a busy period, eager/slow loop, synchronous consumer, "
         "feedback cycles), consumer mode per delivery async/sync, 3 payload kinds; + EXHAUSTIVE enumeration of every maximal "
         "interleaving with <= 4 arrivals (quick; <= 5 thorough) for async, sync and alternating consumers, where at every delivery "
-        "the consumer may or may not re-enter.  Every run is drained at the end and the oracle "
+        "the consumer may or may not re-enter; further exhaustive trees with None / falsy singleton payloads in every position and with "
+        "the consumer attached late (`c` = connect, interleaved everywhere; before it the node emits to nobody).  Payloads are "
+        "recognised by identity only (None, 0, '', False, (), b'', [], {} are all used).  With a late consumer the 'newest delivered' "
+        "claim is made only when something arrived after the attachment.  Every run is drained at the end and the oracle "
         "is evaluated at every point where the loop is idle.  Non-trivial: >= 2 arrivals and at least one arrival while the "
         "consumer is busy or between a notify callback and the coroutine's resumption.  Distinct = distinct schedule JSON.")
 
